@@ -134,11 +134,31 @@ def retry_wait_shape(eng):
             tgt = n.targets[0] if isinstance(n, ast.Assign) else n.target
             wt = dotted(tgt)
             lim = next(dotted(a) for a in n.value.args if dotted(a) != budget)
+    # the select() calls, in _retry itself or in a private helper it hands the wait to (names are mapped back through the call)
+    from sa.norm import nodes_inl
+    inl = list(nodes_inl(retry))
+
+    def up(owner, nm):
+        """the expression of _retry that a helper's parameter `nm` stands for (identity for _retry itself)"""
+        if owner is retry or nm is None:
+            return nm
+        ps = [a.arg for a in owner.params()]
+        if owner.cls is not None and ps and not owner.has_decorator("staticmethod"):
+            ps = ps[1:]
+        for c, oc in inl:
+            if oc is retry and isinstance(c, ast.Call) and (dotted(c.func) or "").split(".")[-1] == owner.name:
+                if nm in ps and ps.index(nm) < len(c.args):
+                    return dotted(c.args[ps.index(nm)])
+                for k in c.keywords:
+                    if k.arg == nm:
+                        return dotted(k.value)
+        return None
+
     if wt is not None:
-        sel = [c for c in own_nodes(retry.node) if isinstance(c, ast.Call) and isinstance(c.func, ast.Attribute) and c.func.attr == "select" and c.args]
-        ok = bool(sel) and all(dotted(c.args[0]) == wt for c in sel)
+        sel = [(c, o) for c, o in inl if isinstance(c, ast.Call) and isinstance(c.func, ast.Attribute) and c.func.attr == "select" and c.args]
+        ok = bool(sel) and all(up(o, dotted(c.args[0])) == wt for c, o in sel)
     # the unbounded select() is only reachable when the wait itself is infinite (i.e. both the budget and the interval are)
-    sel0 = [c for c in own_nodes(retry.node) if isinstance(c, ast.Call) and isinstance(c.func, ast.Attribute) and c.func.attr == "select" and not c.args]
+    sel0 = [(c, o) for c, o in inl if isinstance(c, ast.Call) and isinstance(c.func, ast.Attribute) and c.func.attr == "select" and not c.args]
 
     def is_inf_test(t, names):
         """`<name> == math.inf` / `math.isinf(<name>)` over one of names; a conjunction must cover... any one conjunct suffices"""
@@ -157,11 +177,12 @@ def retry_wait_shape(eng):
         return False
 
     out = []
-    for c in sel0:
+    for c, o in sel0:
         guarded = False
-        for n in own_nodes(retry.node):
+        for n in own_nodes(o.node):
             if isinstance(n, ast.If) and any(c in list(ast.walk(s)) for s in n.body):
-                if (wt is not None and is_inf_test(n.test, {wt})) or (lim is not None and both_inf(n.test)):
+                local_wt = {x for x in ({a.arg for a in o.params()} if o is not retry else {wt}) if x is not None and up(o, x) == wt}
+                if (wt is not None and is_inf_test(n.test, local_wt)) or (o is retry and lim is not None and both_inf(n.test)):
                     guarded = True
         out.append((c, guarded))
     return retry, ok, out
@@ -187,7 +208,8 @@ def check_shapes(eng, run):
         # after the retry loop every path raises, and one of those raises is ETIMEDOUT (the other may be the end-of-stream error, in either order)
         loops_ = [i for i, st in enumerate(fn.node.body) if isinstance(st, (ast.While, ast.For)) or any(isinstance(x, (ast.While, ast.For)) for x in ast.walk(st))]
         tail = fn.node.body[loops_[-1] + 1:] if loops_ else fn.node.body[-2:]
-        ok = isinstance(last, ast.Raise) and any(isinstance(r, ast.Raise) and "ETIMEDOUT" in ast.unparse(r) for st in tail for r in ast.walk(st))
+        from sa.norm import raised_errnos
+        ok = isinstance(last, ast.Raise) and any(isinstance(r, ast.Raise) and ("ETIMEDOUT" in ast.unparse(r) or "ETIMEDOUT" in raised_errnos(fn, r)) for st in tail for r in ast.walk(st))
         if not ok:
             run.finding("C11.err", fn, last, "an exhausted budget no longer surfaces as ETIMEDOUT (TimeoutError) at the end of the retry loop")
         run.ob("C11.err", fn.short, ok)
@@ -260,13 +282,14 @@ def run(eng, run):
     from sa.anchors import verify as _verify_anchor_names
     _verify_anchor_names(eng, run)
     run.not_decided += NOT_DECIDED
-    check_budget(eng, run)
-    check_shapes(eng, run)
-    check_unbudgeted_locks(eng, run)
+    run.attempt(check_budget, eng, run)
+    run.attempt(check_shapes, eng, run)
+    run.attempt(check_unbudgeted_locks, eng, run)
     # a send loop that stops making progress (an empty chunk that is never dropped) spins for ever, whatever the timeout
     from rules import c04
     from sa.report import RuleAlias
-    c04.check_prog(eng, RuleAlias(run, "C11.cycle"))
+    run.attempt(c04.check_prog, eng, RuleAlias(run, "C11.cycle"))
+    run.end_of_rules()
 
 
 # ---------------------------------------------------------------------------------------------- self-test corpus
